@@ -15,6 +15,12 @@ float32) compares with the documented formulas evaluated by mpmath at 60 digits 
   x_inverse        inv(y) vs documented inverse at the exact y the transform produced
   x_roundtrip      inv(T(x)) vs x
   tp_setter        TransformedParameter.tensor = y stores inv(y); the call then reports the log-Jacobian there
+Sub-check `large` (transforms whose size grows with the tree or the vector: LogDifferenceRate, both node-height
+transforms, the cumulative-sum family, stick-breaking; 9..200 taxa / 30..400 entries, values over many decades,
+float64 and float32 as the default dtype):
+  large_ladj       reported log-Jacobian vs slogdet of the autograd Jacobian of the same specification in float64
+                   (vs the product-free documented formula - sums of logs - beyond 320 entries)
+  large_oracles    the two oracles disagree (the forward map is not the documented one)
 A method raising NotImplementedError is "not provided" (label), never a failure.
 """
 import math
@@ -44,7 +50,11 @@ RULE = (
     "Sigmoid, dtype float64 or float32, dimension 1..8, elements from a mixture of [-40,40], its outer halves and "
     "[-5,5] (positives log-uniform 1e-17..1e17 and its outer thirds; float32 cumulative transforms [-10,10] so that "
     "cumulative sums stay below log(float32 max)), rounded to the dtype; non-trivial there = some |x_i| > 20 "
-    "(> 8 in float32) or < 1e-8 and the documented forward value representable in the dtype."
+    "(> 8 in float32) or < 1e-8 and the documented forward value representable in the dtype. "
+    "Sub-check 'large': Hypothesis draws (kind, dtype, size 9..200 taxa (300 thorough) or 30..400 entries, topology "
+    "shape random joins / caterpillar / balanced, dates, the decade range of the values: rates and shifts 1e-6..1e3, "
+    "ratios 1e-3..1, increments +-0.1..3, and a seed); the instance (newick, dates, values) is a deterministic "
+    "function of that case (numpy RandomState(seed)); non-trivial there = at least 60 entries."
 )
 ASSUMPTIONS = [
     "the oracle Jacobian is torch.autograd.functional.jacobian of the transform's own forward map, per slice, "
@@ -72,7 +82,17 @@ ASSUMPTIONS = [
     "points where the documented forward value overflows or is subnormal in the dtype are skipped and counted "
     "(label skipped:documented_forward_out_of_range); not generated: constrained softplus values above "
     "log(dtype max) (88.7 float32 / 709.8 float64), where expm1 in the inverses overflows",
-    "torch's Power / Affine / StickBreaking / Compose and the tree transforms are exercised in moderate ranges only",
+    "torch's Power / Affine / StickBreaking / Compose and the tree transforms are exercised in moderate ranges only "
+    "in the sub-check 'extreme'",
+    "large instances: tolerance = 16 eps_dtype S (+ 1e-8 max(1,|G|) in float64), S = sensitivity sum of the documented "
+    "formula (sum |terms| + size, the cancellation factors (|h_parent|+|bound|)/(h_parent-bound) x depth for the ratio "
+    "transform, cumulative |x| for the cumulative family, i for the i-th stick); float32 is run with float32 as "
+    "the default dtype (the library's default) and its oracle is the float64 twin of the same specification",
+    "torch's softplus is the identity above 20: where the autograd oracle differentiates it (SoftPlus, "
+    "CumSumSoftPlus) exp(-20) = 2.1e-9 per element beyond the switch is added to the tolerance",
+    "large instances whose documented value is not representable in the dtype are skipped and counted: a node height "
+    "within 1024 eps of its bound or below 1e3 x the smallest normal (a zero-length branch in that dtype), cumulative "
+    "sums beyond log(dtype max), stick lengths below the smallest normal",
 ]
 
 EPS = 2.220446049250313e-16
@@ -377,6 +397,21 @@ def _fail(res, aspect, what, detail, exc=None):
     res.fail(kind, detail, aspect=aspect)
 
 
+SOFTPLUS_SWITCH = 2.1e-9  # exp(-20): torch's softplus is the identity above its threshold 20
+
+
+def _softplus_allowance(cls, x1):
+    """torch.nn.functional.softplus returns its argument above 20, so the forward map the autograd oracle
+    differentiates (and -softplus(-c) in a reported value) is off by up to exp(-20) per element there"""
+    if cls == "CumSumSoftPlusTransform":
+        v = np.cumsum(arr(x1).reshape(-1))
+    elif cls == "SoftPlusTransform":
+        v = arr(x1).reshape(-1)
+    else:
+        return 0.0
+    return SOFTPLUS_SWITCH * float(np.sum(np.abs(v) > 20.0))
+
+
 def check_transform(res, cls, T, X, batch, labels, forward_ref=None, sort_forward=False):
     """aspects forward / ladj / inverse / batched_* of one transform object at the points X (rows)"""
     outmap = _outmap(cls)
@@ -412,7 +447,7 @@ def check_transform(res, cls, T, X, batch, labels, forward_ref=None, sort_forwar
             elif o is None:
                 labels.add("ladj:singular_jacobian")
             else:
-                tol = 1e-8 + 64 * EPS * o[1]
+                tol = 1e-8 + 64 * EPS * o[1] + _softplus_allowance(cls, x1)
                 if not abs(float(lred) - o[0]) <= tol:
                     _fail(res, "ladj", "mismatch", dict(d, reported=float(lred), autodiff=o[0], tol=tol))
                 labels.add("ladj:checked")
@@ -970,7 +1005,7 @@ def body_extreme(c):
 
 
 # --------------------------------------------------------------------------- large instances (size grows with the tree)
-LARGE_KINDS = ["logdiff", "logdiff", "logdiff", "general", "general", "difference", "cumsum", "cumsumexp",
+LARGE_KINDS = ["logdiff", "logdiff", "general", "general", "difference", "cumsum", "cumsumexp",
                "cumsumsoftplus", "stick"]
 LARGE_TREE = {"logdiff": "LogDifferenceRateTransform", "general": "GeneralNodeHeightTransform",
               "difference": "DifferenceNodeHeightTransform"}
@@ -1075,15 +1110,18 @@ def large_reference(c, inst):
             h = np.zeros(2 * n - 1)
             h[root] = x[-1]
             terms, S = [], float(n)
+            eps = DTYPES[c["dtype"]][1]
+            tiny = float(torch.finfo(DTYPES[c["dtype"]][0]).tiny)
             for i in range(2 * n - 3, n - 1, -1):
                 gap = h[parent[i]] - bound[i]
                 h[i] = bound[i] + x[i - n] * gap
-                if not gap > 0:
+                # a height that the dtype cannot tell from its bound is a zero-length branch in that dtype:
+                # the documented value is not representable there (skipped and counted)
+                if not gap > 1024 * eps * (abs(h[parent[i]]) + abs(bound[i])) + 1e3 * tiny:
                     return 0.0, 0.0, False
                 terms.append(math.log(gap))
                 S += (abs(h[parent[i]]) + abs(bound[i])) / gap * (1.0 + depth[i]) + abs(terms[-1])
-            tiny = float(torch.finfo(DTYPES[c["dtype"]][0]).tiny)
-            ok = bool(np.all(h[n:] - bound[n:] > tiny * 1e3))
+            ok = bool(np.all(h[n:] - bound[n:] > 1024 * eps * (np.abs(h[n:]) + np.abs(bound[n:])) + 1e3 * tiny))
             return math.fsum(terms), S, ok
         cs = np.cumsum(x)
         P = np.cumsum(np.abs(x))
@@ -1199,13 +1237,14 @@ def body_large(c):
         o = oracle_logdet(J)
         if o is not None:
             labels.add("oracle:autodiff+formula")
-            if abs(o[0] - G) > 1e-7 * max(1.0, abs(G)) + 64 * EPS * (S + o[1]):
+            if abs(o[0] - G) > 1e-7 * max(1.0, abs(G)) + 64 * EPS * (S + o[1]) + _softplus_allowance(cls, x64):
                 # the two oracles disagree: the forward map is not the documented one, or the instance is too
                 # ill-conditioned for the LU; the autodiff value is the property's definition
                 labels.add("oracle:formula_differs")
                 _fail(res, "large_oracles", "disagree", dict(d, autodiff=o[0], formula=G, cond=o[1]))
             oracle, which = o[0], "autodiff"
     tol = (floor * max(1.0, abs(oracle)) if dname == "float64" else 0.0) + K_ULP * eps * S
+    tol += _softplus_allowance(cls, torch.tensor(inst["x"], dtype=torch.float64))
     if kind in ("difference", "cumsum"):
         tol = 1e-8 if which == "autodiff" else 0.0
     if not abs(reported - oracle) <= tol:
@@ -1213,7 +1252,7 @@ def body_large(c):
                                                  eps_units=(abs(reported - oracle) / eps if math.isfinite(reported) else None)))
     labels.add("large_ladj:checked")
     if e2 is None and not _notprov(called):
-        if not _close(called, L, 0.0):
+        if not np.array_equal(arr(called), arr(L), equal_nan=True):
             _fail(res, "tp_call", "mismatch:large", dict(d, called=float(_reduce(called, X.shape)), reported=reported))
     else:
         _fail(res, "tp_call", "not_provided", d, e2)
@@ -1271,7 +1310,7 @@ def subchecks(tier):
             pretags=_h_pretags),
         Sub("extreme", body_extreme, strategy=extreme_cases, quick=3000, thorough=30000,
             pretags=lambda c: {"cls": c["cls"], "dtype": c["dtype"]}),
-        Sub("large", body_large, strategy=lambda: large_cases(200 if tier == "quick" else 300, 400), quick=240,
+        Sub("large", body_large, strategy=lambda: large_cases(200 if tier == "quick" else 300, 400), quick=600,
             thorough=4000, pretags=lambda c: {"cls": LARGE_TREE.get(c["kind"]) or LARGE_VEC[c["kind"]], "dtype": c["dtype"]}),
         Sub("rates", body_rates, strategy=lambda: rate_cases(min(max_n, 12)), quick=500, thorough=8000,
             pretags=_vec_pretags),
